@@ -125,7 +125,7 @@ func main() {
 	sx.Quiet()
 	run := vk.Start("C01", "par")
 	defer run.Finish()
-	run.Rule("round = one frozen-clock phase: 16 goroutines x 150 requests (random resource of 4, inbound/outbound, batch 1-3, args, TraceError, repeated/late Exit, occasional panicking rule-check) on pre-touched buckets; at the barrier: every gauge == 0, GetSum(pass/block/complete/error) of every resource node and of the inbound node == client tallies, recorder callbacks == client tallies; under the race detector. distinct = rounds in which both passes and blocks occurred (by tally vector).")
+	run.Rule("round = one frozen-clock phase: 16 goroutines x 150 requests (random resource of 4, inbound/outbound, batch 1-3, args, TraceError, repeated/late Exit, occasional panicking rule-check) on pre-touched buckets; at the barrier: every gauge == 0, GetSum(pass/block/complete/error) of every resource node and of the inbound node == client tallies, recorder callbacks == client tallies; then 40 never-seen resources each entered by all 16 goroutines at the same moment: all 16 outcomes on the resource's node; under the race detector. distinct = rounds in which both passes and blocks occurred (by tally vector).")
 	run.Assume("virtual clock frozen during a phase and advanced by 15 s between phases", "the first touch of each bucket is done sequentially before the phase (rollover overlap is C09's subject)")
 	clk := vclock.New(1900000000000)
 	chain = sentinel.BuildDefaultSlotChain()
@@ -193,6 +193,35 @@ func main() {
 			if t.cbDone != t.cbPass {
 				bad("callbacks:completions-vs-passes", fmt.Sprintf("%s: %d pass callbacks, %d completion callbacks", name, t.cbPass, t.cbDone))
 			}
+		}
+		// first sight of a resource from all goroutines at once: every outcome must still be counted on the one
+		// node the resource ends up with (none on a node that was created concurrently and then dropped)
+		for f := 0; f < 40; f++ {
+			fresh := fmt.Sprintf("c01par-fresh-%d-%d", r, f)
+			gate := make(chan struct{})
+			var fw sync.WaitGroup
+			for g := 0; g < G; g++ {
+				fw.Add(1)
+				go func() {
+					defer fw.Done()
+					<-gate
+					if e, b := sentinel.Entry(fresh); b == nil {
+						e.Exit()
+					}
+				}()
+			}
+			close(gate)
+			fw.Wait()
+			node := stat.GetResourceNode(fresh)
+			if node == nil {
+				bad("first-sight:no-node", fresh+" has no statistic node after 16 requests")
+				break
+			}
+			if p, c, g := node.GetSum(base.MetricEventPass), node.GetSum(base.MetricEventComplete), node.CurrentConcurrency(); p != G || c != G || g != 0 {
+				bad("first-sight:outcomes-not-counted-on-the-resource", fmt.Sprintf("%d goroutines made the first request of %s at the same moment (no rules: all pass): its node reports pass=%d complete=%d in-flight=%d", G, fresh, p, c, g))
+				break
+			}
+			run.Count("first_sight_resources", 1)
 		}
 		run.Count("requests", G*K)
 		if r < 2 {
